@@ -169,7 +169,7 @@ func TestC17(t *testing.T) {
 	if r.Only < 0 {
 		smoke(t, r, dir)
 	}
-	r.Require("uploads_checked", "failed_uploads", "retries_after_failure", "idle_periods_checked", "cancellations_checked", "uploads_with_write_during_window", "timelines", "suppressed_uploads_without_change", "uploads_hanging_past_the_limit")
+	r.Require("uploads_checked", "failed_uploads", "retries_after_failure", "idle_periods_checked", "cancellations_checked", "uploads_with_write_during_window", "timelines", "suppressed_uploads_without_change", "uploads_hanging_past_the_limit", "timelines_on_reopened_database")
 	r.Rule("seeded timelines of ~20 events over virtual hours: sleep d in {0,1s,30s,59s,60s,61s,5min,1h}, bursts of 1-3 real database writes (put/activate/delete), endpoint mode switches (ok / 403 not retryable / 500 retryable / hold for d with a write landing inside the held upload), then a quiet tail, an idle hour and cancellation at a random point of the minute cycle. Distinct = (endpoint mode at upload, writes during window?, outcome) and the smoke case through server.New")
 }
 
@@ -209,6 +209,13 @@ func timeline(t *testing.T, r *evid.Run, dir string, idx int) {
 			snaps = append(snaps, snap{time.Since(t0), b})
 		}
 		kdb.Put(su, "seed", []byte("seed-value"))
+		if rng.IntN(3) == 0 {
+			// a restarted server: the task runs on a database that was opened from an existing file
+			if kdb, err = db.Open(path, key, audit.New(io.Discard)); err != nil {
+				t.Fatal(err)
+			}
+			r.Count("timelines_on_reopened_database", 1)
+		}
 		takeSnap()
 		nput := 0
 		var wmu sync.Mutex
